@@ -26,6 +26,10 @@ structure DState where
 
 def step (st : DState) (line : String) : DState × String :=
   let toks := (line.trimAscii.toString.splitOn " ").filter (· ≠ "")
+  -- `cli<verb> …`: the same case carried out through the command-line binary; the model's answer is the verb's
+  let toks := match toks with
+    | v :: rest => if v.startsWith "cli" && v.length > 3 then (v.drop 3).toString :: rest else toks
+    | [] => toks
   match toks with
   | [] => (st, "bad-op")
   | _ =>
